@@ -32,7 +32,8 @@ def act_setup(ctx):
     dk_kind = ["none", "known+extra", "extra-only"][ctx.choose(3, "dict_kwargs")]
     prev_kind = ["none", "same-class-with-dict_kwargs", "other-class"][ctx.choose(3, "prev_val")]
     a_val, known_val, extra_val = z3.Int("init_args.a"), z3.Int("dict_kwargs.known"), z3.Int("dict_kwargs.extra")
-    init_store = {"a": a_val}
+    # init_args given, or none at all (class_path only): the class's parser must validate either way - that is where a missing required parameter is caught
+    init_store = {"a": a_val} if ctx.choose(2, "init_args-given") == 0 else {}
     init_args = ns(init_store, "init_args")
     dict_kwargs = {"none": None, "known+extra": {"known": known_val, "extra": extra_val}, "extra-only": {"extra": extra_val}}[dk_kind]
     store = {"class_path": "pkg.Sub", "init_args": init_args}
@@ -83,18 +84,18 @@ def act_setup(ctx):
     env = {"value": value, "serialize": mode == "serialize", "instantiate_classes": mode.startswith("instantiate"), "sub_add_kwargs": sub_add_kwargs, "prev_val": prev, "skip_args": 0,
            "partial_classes": mode == "instantiate-partial"}
     return Setup(env=env, calls=calls, consts=consts, symcall=symcall, cms={"suppress": suppress_cm()},
-                 data=dict(mode=mode, dk_kind=dk_kind, prev_kind=prev_kind, value=value, store=store, init_store=init_store, sub_cls=sub_cls, validated=validated, instantiated=instantiated,
+                 data=dict(init_given=bool(init_store), mode=mode, dk_kind=dk_kind, prev_kind=prev_kind, value=value, store=store, init_store=init_store, sub_cls=sub_cls, validated=validated, instantiated=instantiated,
                            instance=instance, a_val=a_val, known_val=known_val, extra_val=extra_val, prev_extra=prev_extra))
 
 
 def act_post(ctx, st, result):
     d = st.data
     ev = ctx.events
-    tag = f"[{d['mode']},dict_kwargs:{d['dk_kind']},prev:{d['prev_kind']}]"
+    tag = f"[{d['mode']},dict_kwargs:{d['dk_kind']},prev:{d['prev_kind']}{'' if d['init_given'] else ',no-init_args'}]"
     ctx.oblige("post", "the-parser-is-the-one-built-for-the-class-named-by-class_path" + tag, [e[1] for e in ev if e[0] == "class-parser-for"] == [d["sub_cls"]] and ("import", "pkg.Sub") in ev)
     if d["mode"] == "parse":
         val = [e for e in ev if e[0] == "validate-init_args"]
-        want = {"a": d["a_val"]}
+        want = {"a": d["a_val"]} if d["init_given"] else {}
         if d["dk_kind"] == "known+extra":
             want["known"] = d["known_val"]
         ok = len(val) == 1 and set(val[0][1]) == set(want) and all(val[0][1][k] is want[k] for k in want)
